@@ -171,20 +171,32 @@ def r26_sign_prop(ctx):
     rule = "R26.year-sign"
     f = ctx.func("parsers.TimePointParser._create_timepoint_from_info")
     events = []     # (lineno, kind)
+    yv = None
     for n in walk_no_nested(f.node):
-        if isinstance(n, ast.AugAssign) and U(n.target) == "year":
+        if isinstance(n, ast.Assign) and isinstance(
+                n.targets[0], ast.Subscript) and isinstance(
+                    n.targets[0].slice, ast.Constant) and \
+                n.targets[0].slice.value == "year" and isinstance(
+                    n.value, ast.Name):
+            yv = n.value.id
+    if yv is None:
+        rep.error("R26", "_create_timepoint_from_info: store of the "
+                  "assembled year not found")
+        yv = "year"
+    for n in walk_no_nested(f.node):
+        if isinstance(n, ast.AugAssign) and U(n.target) == yv:
             if isinstance(n.op, ast.Mult) and U(n.value) in ("-1", "(-1)"):
                 events.append((n.lineno, "negate", n))
             else:
                 events.append((n.lineno, "accumulate", n))
-        elif isinstance(n, ast.Assign) and U(n.targets[0]) == "year":
+        elif isinstance(n, ast.Assign) and U(n.targets[0]) == yv:
             if isinstance(n.value, ast.UnaryOp) and U(n.value.operand) == \
-                    "year":
+                    yv:
                 events.append((n.lineno, "negate", n))
             else:
                 events.append((n.lineno, "init", n))
-        elif isinstance(n, ast.Assign) and "date_info['year']" in U(
-                n.targets[0]) and U(n.value) == "year":
+        elif isinstance(n, ast.Assign) and "['year']" in U(
+                n.targets[0]) and U(n.value) == yv:
             events.append((n.lineno, "store", n))
     events.sort(key=lambda e: e[0])
     kinds = [k for _, k, _ in events]
@@ -212,11 +224,15 @@ def r26_sign_prop(ctx):
     if len(rets) == 1 and isinstance(rets[0].value, ast.Tuple) and len(
             rets[0].value.elts) == 2:
         deps = []
-        for e in rets[0].value.elts:
-            deps.append(_depends_on(f, e, "sign"))
         signdef = [n for n in walk_no_nested(f.node)
-                   if isinstance(n, ast.Assign) and U(n.targets[0]) == "sign"]
-        sign_ok = bool(signdef) and "< 0" in U(signdef[0].value)
+                   if isinstance(n, ast.Assign) and isinstance(
+                       n.targets[0], ast.Name) and isinstance(
+                           n.value, ast.IfExp) and "< 0" in U(n.value.test)
+                   and {U(n.value.body), U(n.value.orelse)} == {"-1", "1"}]
+        sname = signdef[0].targets[0].id if signdef else "sign"
+        for e in rets[0].value.elts:
+            deps.append(_depends_on(f, e, sname))
+        sign_ok = bool(signdef) and U(signdef[0].value.body) == "-1"
         okd = all(deps) and sign_ok
         why = "hours depends on sign: %s, minutes depends on sign: %s" % (
             deps[0], deps[1])
@@ -616,10 +632,16 @@ def r27_dur_table(ctx):
               "consume", P)
     # date-time-like spelling: unit to unit
     mapping = {}
+    rm_names = set()
+    for n in walk_no_nested(pf.node):
+        if isinstance(n, ast.Call) and U(n.func).endswith("Duration"):
+            for k in n.keywords:
+                if k.arg is None and isinstance(k.value, ast.Name):
+                    rm_names.add(k.value.id)
     for n in walk_no_nested(pf.node):
         if isinstance(n, ast.Assign) and isinstance(
                 n.targets[0], ast.Subscript) and U(
-                    n.targets[0].value) == "result_map" and isinstance(
+                    n.targets[0].value) in rm_names and isinstance(
                         n.targets[0].slice, ast.Constant) and isinstance(
                             n.value, ast.Attribute):
             mapping.setdefault(n.targets[0].slice.value, set()).add(
@@ -703,7 +725,7 @@ def r28_rec_table(ctx):
     for n in walk_no_nested(pf.node):
         if isinstance(n, ast.If) and isinstance(n.test, (ast.Compare,
                                                          ast.BoolOp)):
-            m = re.search(r"'(\w+)' in result_map", U(n.test))
+            m = re.search(r"'(\w+)' in \w+", U(n.test))
             if m:
                 for st in n.body:
                     if isinstance(st, ast.Assign):
@@ -713,7 +735,8 @@ def r28_rec_table(ctx):
     kw = {k.arg: U(k.value) for k in call[0].keywords} if call else {}
     want_kw = {"reps": "repetitions", "start": "start_point",
                "end": "end_point", "intv": "duration"}
-    good = all(assign.get(g) == v and kw.get(v) == v
+    # group -> local -> constructor keyword of the same meaning
+    good = all(g in assign and kw.get(v) == assign[g]
                for g, v in want_kw.items())
     rep.check(good, rule, ctx.fkey(pf, None, "group-to-keyword"), pf.loc(),
               "regex groups reach the constructor keyword of the same "
@@ -724,8 +747,8 @@ def r28_rec_table(ctx):
     uses = {}
     for n in walk_no_nested(pf.node):
         if isinstance(n, ast.Assign) and isinstance(n.value, ast.Call) and \
-                "result_map[" in U(n.value):
-            m = re.search(r"result_map\['(\w+)'\]", U(n.value))
+                re.search(r"\w+\['(\w+)'\]", U(n.value)):
+            m = re.search(r"\w+\['(\w+)'\]", U(n.value))
             if m:
                 uses[m.group(1)] = U(n.value.func)
     good = ("timepoint_parser" in uses.get("start", "") and
